@@ -1,5 +1,6 @@
 (* C05 - declared input/output structures are honest.
-   Statements only; the proofs are in Lemmas/StructsL.v.
+   Statements only; the proofs are in Lemmas/StructsL.v (and Lemmas/AxesStructsL.v for the axis operators of
+   Model/Axes.v, last section).
    Declared structures: Model/Algebra.v `structs` (in_struct / out_struct / in_size / out_size).
    `vhas x s` (Model/Structs.v): the value x (a pytree of flat arrays over ANY carrier K) has the tree
    shape and the leaf sizes of the structure s.  `leaf_honest leafsem e` / `leaf_defined leafsem e`:
@@ -8,7 +9,7 @@
 From Coq Require Import List Bool ZArith NArith String.
 From Furax Require Import Base.Pytree Model.Op Model.Algebra Model.Denote Model.Wf Model.Structs
   Lemmas.StructsL.
-From Furax Require Model.StokesTree Model.Exec Lemmas.Sound.
+From Furax Require Model.StokesTree Model.Exec Lemmas.Sound Model.Axes Lemmas.AxesStructsL.
 Import ListNotations.
 
 Section C05.
@@ -280,3 +281,25 @@ Proof.
     rewrite (vhas_vscale Z Z.mul). exact Hx.
   - intros x Hx. eexists. reflexivity.
 Qed.
+
+(* ---------- axis operators on pytrees whose leaves have different ranks ---------- *)
+(* Model/Axes.v (the model of the C13 check: MoveAxisOperator / RavelOperator / ReshapeOperator on lists of leaf
+   shapes, the axes normalised PER LEAF; reduce1 = AbstractRavelOrReshapeOperator.reduce / the default reduce).
+   The reduced operator declares the structures of the unreduced one, whatever the ranks of the leaves ... *)
+Theorem axes_reduce_keeps_structures : forall o r, Axes.reduce1 o = Axes.Ok r ->
+  Axes.in_structure r = Axes.in_structure o /\ Axes.out_structure r = Axes.out_structure o.
+Proof. exact AxesStructsL.reduce1_structs_l. Qed.
+(* ... and the identity is returned only when EVERY leaf keeps its shape (not: the first one, not: some of them) *)
+Theorem axes_reduce_identity_needs_all_leaves : forall o s, Axes.reduce1 (Axes.OpRR o) = Axes.Ok (Axes.OpId s) ->
+  Axes.mapM (Axes.rr_leaf_shape o) (Axes.rr_in o) = Axes.Ok (Axes.rr_in o).
+Proof. exact AxesStructsL.reduce1_identity_all_leaves_l. Qed.
+Print Assumptions axes_reduce_keeps_structures.
+Print Assumptions axes_reduce_identity_needs_all_leaves.
+(* the default ravel (0, -1) on a 1-d leaf followed by a 2-d leaf: the first leaf is untouched, the second one is
+   flattened - not an identity; ravelling axis 0 alone is one *)
+Example axes_mixed_rank_witness :
+  exists o, Axes.Ravel_ctor 1%N 0%Z (-1)%Z [[4]; [2; 3]]%nat = Axes.Ok o /\
+    Axes.reduce1 (Axes.OpRR (Axes.RRavel o)) = Axes.Ok (Axes.OpRR (Axes.RRavel o)) /\
+    Axes.out_structure (Axes.OpRR (Axes.RRavel o)) = Axes.Ok [[4]; [6]]%nat /\
+    Axes.reduce1 (Axes.OpRR (Axes.RRavel (Axes.mkRavel 1%N 0%Z 0%Z [[4]; [2; 3]]%nat))) = Axes.Ok (Axes.OpId [[4]; [2; 3]]%nat).
+Proof. exists (Axes.mkRavel 1%N 0%Z (-1)%Z [[4]; [2; 3]]%nat). vm_compute. repeat split. Qed.
